@@ -27,6 +27,7 @@ X = "repository::x509::"
 
 
 def run(ctx):
+    ctx = _Rescue(ctx, {})          # (keeps the details of the obligations printable)
     f = ctx.facts()
     ctx.rule("R-REG", "decision table equals the spec")
     K.check_serial_start(ctx, f)
@@ -1261,7 +1262,7 @@ class _Rescue:
                 what += "  [%s]" % r[1]
             else:
                 detail = {"as_recognised": detail, "decided_again": r[1] if r else None}
-        return self._ctx.ob(rule, key, ok, what, where, detail, nontrivial)
+        return self._ctx.ob(rule, key, ok, what, where, _printable(detail), nontrivial)
 
     def floor(self, rule, name, count, minimum):
         return self.ob(rule, "floor:" + name, count >= minimum,
@@ -1831,3 +1832,20 @@ def _reach(succ, starts, removed_blocks=(), removed_edges=()):
                 continue
             work.append(y)
     return seen
+
+
+def _printable(x, depth=0):
+    """Details go into JSON evidence files."""
+    if x is None or isinstance(x, (bool, int, float, str)):
+        return x
+    if depth > 8:
+        return str(x)[:200]
+    if isinstance(x, bytes):
+        return repr(x)
+    if isinstance(x, dict):
+        return {str(k): _printable(v, depth + 1) for k, v in x.items()}
+    if isinstance(x, (list, tuple)):
+        return [_printable(v, depth + 1) for v in x]
+    if isinstance(x, (set, frozenset)):
+        return sorted((_printable(v, depth + 1) for v in x), key=str)
+    return str(x)[:300]
